@@ -525,6 +525,8 @@ mutual
             | .error o => (o, s1)
             | .ok (x, s2) =>
               let turn : Int := if s2.vm.mode == .raw then 65536 else 360
+              -- nothing to divide the turn among: no pass at all
+              if q == 0 then (.normal, s2.assign v x) else
               match (Vm.binOp .div (.int turn) cnt).bind fun i => series v x i (passes q) with
               | some bs => execPasses f bs body s2
               | none => (.fault "arithmetic error", s2)
